@@ -27,7 +27,7 @@ import (
 )
 
 func init() {
-	evid.Register(&evid.Check{ID: "C04", Level: "exploration", Run: run, QuickBudget: 300 * time.Second, ThoroughBudget: 30 * time.Minute})
+	evid.Register(&evid.Check{ID: "C04", Level: "exploration", Run: run, QuickBudget: 480 * time.Second, ThoroughBudget: 30 * time.Minute})
 }
 
 type caseT struct {
